@@ -114,6 +114,9 @@ Software documentation and support at http://snmplabs.com/pysmi
     if opt[0] == '--ignore-errors':
         ignoreErrorsFlag = True
 
+    if opt[0] == '--dry-run':
+        dryrunFlag = True
+
 if not mibSources:
     mibSources = ['file:///usr/share/snmp/mibs',
                   'http://mibs.snmplabs.com/asn1/@mib@']
@@ -130,7 +133,8 @@ if os.path.exists(dstDirectory) and not os.path.isdir(dstDirectory):
     sys.exit(EX_USAGE)
 
 try:
-    os.makedirs(dstDirectory, mode=0o755)
+    if not dryrunFlag:
+        os.makedirs(dstDirectory, mode=0o755)
 
 except OSError:
     pass
@@ -260,7 +264,8 @@ for srcDirectory in inputMibs:
                 os.path.join(dstDirectory, mibName), dstMibRevision))
 
         try:
-            shutil.copy(os.path.join(srcDirectory, mibFile), os.path.join(dstDirectory, mibName))
+            if not dryrunFlag:
+                shutil.copy(os.path.join(srcDirectory, mibFile), os.path.join(dstDirectory, mibName))
 
         except Exception as ex:
             if verboseFlag:
